@@ -137,6 +137,17 @@ def triage(R):
         if o.status == 'unsat':
             continue
         if o.status == 'unknown':
+            if R.refutation and getattr(R, 'refutation_applies', lambda o: True)(o):
+                # undecided by the solvers, but the property's refuter found a concrete failing input on the real code
+                base = o.name.split('#case-')[0]
+                if not any(v['key'] == base for v in R.violations):
+                    os.makedirs(rdir, exist_ok=True)
+                    path = os.path.join(rdir, _safe(base) + '.json')
+                    with open(path, 'w') as f:
+                        json.dump(dict(obligation=o.name, kind=o.kind, solver_output='unknown', refuter_found=R.refutation,
+                                       replayed_on_real_code=True), f, indent=1, default=str)
+                    R.violations.append(dict(key=base, replay=path, replayed=True, what='undecided obligation + concrete failing input'))
+                continue
             R.undecided.append((o.name, 'solver returned unknown on every back end (%.0fs)' % o.time))
             continue
         # sat
